@@ -20,7 +20,7 @@ struct IsoResult {
 };
 
 // Judge a plan in a forked child of the current (pristine) process.
-IsoResult eval_isolated(const Property &P, const json &plan, int timeout_s = 20);
+IsoResult eval_isolated(const Property &P, const json &plan, int timeout_s = 300);
 
 // Judge a plan in a fresh process (exec of this binary).
 IsoResult eval_fresh_process(const json &plan, const std::string &tmpdir);
